@@ -171,6 +171,8 @@ func (e *Exec) harnessIntrinsic(short string, args []Value) (Value, bool) {
 		switch key {
 		case "preempt":
 			e.sch.maxPreempt = val
+		case "delaybound":
+			e.sch.delayBound = val
 		case "maporder":
 			e.mapOrderAll = val != 0
 		case "appendcap":
